@@ -13,7 +13,7 @@ func init() {
 			r.Rule("R10.4", 8, "not early: Disposable.Close is called only by the disposal loops and the overlap-disposal idiom; (*scope).Close only by owners' Close, watchers and failure cleanup")
 			r.Rule("R10.5a", 2, "a Build that fails after construction started closes the partial provider")
 			r.Rule("R10.5b", 5, "scope creation that fails closes the partial scope; every exit of CreateScope after WithCancel returns the scope or has closed it")
-			r.Rule("R10.5c", 6, "construction overlapping Close: insertions into tables that Close resets are re-checked inside the critical section (typestate)")
+			r.Rule("R10.5c", 8, "construction overlapping Close: insertions into tables that Close resets are re-checked inside the critical section (typestate)")
 			r.Rule("R10.6", 2, "fan-out loops hand every output of a multi-output constructor to setInstance")
 			r.Rule("R02.3", 5, "every success exit of createInstance has passed setInstance")
 			r.Try(func() { ruleTracking(w, r, "R10.1", "", "") })
@@ -76,7 +76,7 @@ func init() {
 			r.Rule("R13.1", 8, "R-ENTRY")
 			r.Rule("R13.2", 3, "cascade")
 			r.Rule("R13.2g", 2, "R-GATE: the flag is set before anything else, so later entry checks fail")
-			r.Rule("R13.3", 6, "typestate of tables reset by Close")
+			r.Rule("R13.3", 8, "typestate of tables reset by Close")
 			r.Rule("R13.3s", 4, "a table's snapshot and its reset happen inside one critical section")
 			r.Rule("R13.3b", 5, "a scope that arrives after its owner was closed is closed, not handed out or leaked")
 			r.Rule("R13.4", 2, "one watcher per CreateScope, on this context, closing this scope")
